@@ -176,7 +176,7 @@ def liveness_part(ctx, observations, stats):
 # ------------------------------------------------------------------------------------------------ pass validators
 STATIC_ALL = ["C14/VenomSim.v", "C14/ValRUV.v", "C14/ValDFT.v", "C14/ValCopy.v", "C14/Liveness.v"]
 PASS_VALIDATOR = {"RemoveUnusedVariablesPass": "ruv", "AssignElimination": "copy", "SingleUseExpansion": "copy", "DFTPass": "dft"}
-THEOREM = {"ruv": "ruv_check_sound", "copy": "copy_check_sound", "dft": "dft_check_sound / dft_check_observe"}
+THEOREM = {"ruv": "ruv_fn_sim + validators_compose", "copy": "copy_fn_sim + validators_compose", "dft": "cdft_fn_sim + validators_compose"}
 
 
 def _parse_one(text):
@@ -344,7 +344,10 @@ def validators_part(ctx, progs, stats):
         groups.setdefault((s["prog"], s["level"], s["fn"]), []).append(s)
     jobs = []
     for gk, ss in sorted(groups.items()):
-        namer = X.Namer()
+        # invoke / ret / param are exported with the call semantics (coq/C14/VenomCall.v); function labels are numbered per group
+        from vlib.c14_pass_sem import fn_norm
+        names = sorted({fn_norm(gk[2])} | {fn_norm(n) for s in ss for n in s.get("ctx", {})})
+        namer = X.Namer(fn_index={n: k for k, n in enumerate(names)})
         defs, exprs, meta = {}, [], []
         for s in sorted(ss, key=lambda s: s["idx"]):
             pb, pa = _parse_one(s["before"]), _parse_one(s["after"])
@@ -361,7 +364,7 @@ def validators_part(ctx, progs, stats):
             if kind == "ruv":
                 e = f"ruv_check f_{hs[0]} f_{hs[1]}"
             elif kind == "dft":
-                e = f"dft_check f_{hs[0]} f_{hs[1]}"
+                e = f"cdft_check f_{hs[0]} f_{hs[1]}"
             else:
                 nu, cert = _copy_cert(pb[0], pa[0], namer)
                 e = f"copy_check (fun x => negb (memp x {nu})) ({cert}) f_{hs[0]} f_{hs[1]}"
@@ -372,7 +375,7 @@ def validators_part(ctx, progs, stats):
 
     def run(job):
         gk, defs, exprs, meta = job
-        imp = ("From Verif Require Import Base.Word256 C14.Venom C14.VenomSim C14.ValRUV C14.ValDFT C14.ValCopy.\n"
+        imp = ("From Verif Require Import Base.Word256 C14.Venom C14.VenomSim C14.ValRUV C14.ValDFT C14.ValCopy C14.VenomCall C14.ValCall.\n"
                + "".join(f"Definition f_{h} : func := {t}.\n" for h, t in defs.items()))
         tag = "c14val_" + X.text_hash("|".join(map(str, gk)))
         try:
